@@ -78,6 +78,9 @@ CAT = {
     'req_ws_name': req(extra=[B(' x-k', 'v')]),
     'req_ws_value': req(extra=[B('x-k', 'v ')]),
     'req_conn': req(extra=[B('connection', 'close')]),
+    # whitespace other than space and tab at the edges of values (the library's own inbound rule counts all of string.whitespace)
+    'req_ws_value_nl': req(extra=[B('x-k', 'v\n'), B('x-l', '\x0cw'), S('x-m', '\r\nu\x0b')]),
+    'resp_ws_value_nl': [B(':status', '200'), B('x-k', 'v\r\n')],
     'req_emptyname': req(extra=[B('', 'v')]),
     'req_nonutf8': req(extra=[B('x-bin', '\xff\xfe')]),
     'resp_cl_bad': [B(':status', '200'), B('content-length', 'abc')],
@@ -143,6 +146,7 @@ TOK = {
     'cl3': B('content-length', '3'), 'cl_bad': B('content-length', 'abc'), 'empty_name': B('', 'v'), 'nonutf8': B('x-bin', '\xff\xfe'),
     'authz': B('authorization', 'secret'), 's_xk': S('x-k', 'v1'), 's_method': S(':method', 'GET'), 'up_pseudo': B(':Method', 'GET'),
     'pad_value': B('x-pad', ' v '), 'keepalive': B('Keep-Alive', 'x'),
+    'ws_value_nl': B('x-k', 'v\n'), 'ws_value_ff': B('x-k', '\x0cv'), 's_ws_value_nl': S('x-s', '\tv\r\n'),
 }
 
 
